@@ -83,6 +83,11 @@ CLAIMED = {
    note="Trusted: Coq kernel, extraction, harness; unlink/rmdir semantics; -P only for the decoy check.",
    technique="Coq proof (nested induction with a freshness invariant) + snapshot-based correspondence",
    design="5 C10"),
+ "C13": dict(
+   text="Coq theorems about a transcription of WalkEntry::from_walkdir / metadata / file_type and Follow::metadata over an operating-system oracle (lstat record and stat result): the record every test sees is lstat under -P, stat (lstat for dangling links) under -L, and under -H stat for starting points only; -xtype makes the opposite choice; -lname applies only where the link itself is the entry; -perm MODE / -MODE / /MODE as statements about the twelve permission bits; the -type letter table regenerated from the source. Tied to /repo by in-process runs on every creatable file type, links to each, dangling and looping links, hard links, sampled modes (octal and symbolic), chown'ed files, under -P/-H/-L at depth 0 and 1.",
+   note="Trusted: Coq kernel, extraction, harness, os.lstat/os.stat as the records; uucore::mode's symbolic parser exercised not modelled; block/char devices not created.",
+   technique="Coq proof (finite case analysis over an OS oracle; bit-level lemmas) + differential correspondence",
+   design="5 C13"),
 }
 ALL = ["C%02d" % i for i in range(1, 21)]
 def main():
